@@ -6,6 +6,8 @@ import (
 	"fmt"
 	"io"
 	"strings"
+	"sync/atomic"
+	"time"
 
 	"github.com/trzsz/trzsz-go/trzsz"
 )
@@ -135,7 +137,30 @@ func (w *chunkWriter) Write(p []byte) (int, error) {
 }
 func (w *chunkWriter) Close() error { return nil }
 
+// runReader never waits for ever: a Read of the real reader that does not come back within 5 s
+// (a loop that makes no progress) is a result of its own
+var readerHangInput string
+
+var readerHung atomic.Bool // a Read that never returns keeps its goroutine spinning: after the first one the real reader is not called any more
+
 func runReader(t *trzsz.VerifEscapeTable, cs [][]byte, sizes []int, dflt int) string {
+	if readerHung.Load() {
+		return "hang-skipped"
+	}
+	done := make(chan string, 1)
+	go func() { done <- runReaderUnguarded(t, cs, sizes, dflt) }()
+	select {
+	case r := <-done:
+		return r
+	case <-time.After(5 * time.Second):
+		if !readerHung.Swap(true) {
+			readerHangInput = fmt.Sprintf("chunks=%s sizes=%s default-size=%d", hxs(cs), ints(sizes), dflt)
+		}
+		return "hang"
+	}
+}
+
+func runReaderUnguarded(t *trzsz.VerifEscapeTable, cs [][]byte, sizes []int, dflt int) string {
 	r := trzsz.VerifNewEscapeReader(t, &chunkReader{append([][]byte(nil), cs...)}) // the reader advances its own copy of the list
 	var outs [][]byte
 	for i := 0; ; i++ {
@@ -351,6 +376,40 @@ func genEscape(c *ctx) {
 			c.count("undefined-pair:" + kind)
 		}
 	}
+	// 1c. the streaming reader asked for ONE byte while only the leader of a pair cut by a chunk
+	// boundary is pending must come back (with the decoded byte), for every table and code
+	for _, all := range []bool{false, true} {
+		ps := builtinPairs(all)
+		t := mustTable(ps)
+		for _, p := range ps {
+			cs := [][]byte{{'a', 0xee}, {p.c, 'b'}}
+			for _, sizes := range [][]int{{1, 1, 1, 1}, {1, 1}, {2, 1}, {1}} {
+				res := runReader(t, cs, sizes, 1)
+				if res == "hang" {
+					c.violate("reader-hang:pending-leader", "escapeReader.Read does not return when asked for a few bytes while the leader of a pair cut by a chunk boundary is pending",
+						fmt.Sprintf("table=%s chunks=%s sizes=%s", tableArg(ps), hxs(cs), ints(sizes)))
+				}
+			}
+			c.count("reader:one-byte-with-pending-leader")
+		}
+	}
+	// 1d. protocol 1 (recvData): a chunk whose escaped bytes end in a bare leader is rejected, not
+	// delivered one byte short; a chunk with an undefined pair is rejected
+	for _, all := range []bool{false, true} {
+		ps := builtinPairs(all)
+		t := mustTable(ps)
+		for _, body := range [][]byte{{'A', 'B', 0xee}, {0xee}, {'A', 0xee, 0xee, 0xee}, {'A', 0xee, 0x00, 'B'}} {
+			var sink bytes.Buffer
+			w := trzsz.VerifNewWire(&sink, true, t, 1)
+			w.Feed(append([]byte(fmt.Sprintf("#DATA:%d\n", len(body))), body...))
+			got, err := w.RecvData()
+			if err == nil {
+				c.violate("v1-truncated-pair-accepted", "recvData (protocol 1) accepted a chunk that ends inside an escape pair / holds an undefined pair",
+					fmt.Sprintf("table=%s chunk=%s delivered=%s", tableArg(ps), hx(body), hx(got)))
+			}
+			c.count("v1:malformed-chunk")
+		}
+	}
 	undefinedPairs(builtinPairs(false), "builtin")
 	undefinedPairs(builtinPairs(true), "builtin")
 	for i := 0; i < c.pick(4, 40); i++ {
@@ -374,6 +433,10 @@ func genEscape(c *ctx) {
 	for i := 0; i < c.pick(20, 300); i++ {
 		ps := builtinPairs(i%2 == 0)
 		one(ps, c.denseData(ps, 500+c.rng.Intn(3000)), "long")
+	}
+	if readerHung.Load() {
+		c.violate("reader-hang", "escapeReader.Read did not return within 5 s (a loop that makes no progress); the real reader was not called again after that",
+			readerHangInput)
 	}
 	// 5. table parsing: shapes and code points, malformed stream
 	for i := 0; i < c.pick(300, 5000); i++ {
